@@ -369,6 +369,10 @@ var UdpTypes = []uint8{udp.TX_START, udp.TX_DB_CONN, udp.TX_DB_FETCH, udp.TX_SQL
 
 var UdpVersions = []int32{10100, 10101, 10105, 10110, 20101, 20102, 20104, 30101, 30103, 40001, 50100, 50101}
 
+// UdpVersionsAll: every version at and next to a threshold the UDP formats distinguish (five agent families).
+var UdpVersionsAll = []int32{10000, 10100, 10101, 10102, 10103, 10104, 10105, 10106, 10107, 10108, 10109, 10110, 10111, 20001, 20101, 20102,
+	20103, 20104, 20105, 30001, 30101, 30102, 30103, 30104, 40001, 40101, 50001, 50099, 50100, 50101, 50102}
+
 func Udp(r *rand.Rand, t uint8, ver int32) udp.UdpPack {
 	p := udp.CreatePack(t, ver)
 	if p == nil {
@@ -549,6 +553,16 @@ var DirectTypes = []DirectType{
 	{"TimeCount", func() interface{} { return pack.NewTimeCountDefault() }},
 	{"SqlRec", func() interface{} { return pack.NewSqlRec() }},
 	{"HttpcRec", func() interface{} { return pack.NewHttpcRec() }},
+	// steps and sub-records with a Write/Read pair that no factory and no generator above reaches on their own
+	{"SqlStep_3", func() interface{} { return step.NewSqlStep_3() }},
+	{"CpuLinux", func() interface{} { return &pack.CpuLinux{} }},
+	{"CpuWindow", func() interface{} { return &pack.CpuWindow{} }},
+	{"CpuOSX", func() interface{} { return &pack.CpuOSX{} }},
+	{"MemoryLinux", func() interface{} { return &pack.MemoryLinux{} }},
+	{"MemoryWindow", func() interface{} { return &pack.MemoryWindow{} }},
+	{"ProcNetPerf", func() interface{} { return &pack.ProcNetPerf{} }},
+	{"ProcFilePerf", func() interface{} { return &pack.ProcFilePerf{} }},
+	{"TCPPortPerf", func() interface{} { return &pack.TCPPortPerf{} }},
 }
 
 // Direct builds a randomly populated instance of DirectTypes[i] (second-stage state included where setters exist).
@@ -563,6 +577,23 @@ func Direct(r *rand.Rand, i int) interface{} {
 		}
 	case *pack.ProfileStepSplitPack:
 		q.SetProfile(Steps(r, 1+r.Intn(3)))
+	case *pack.SMBasePack: // the OS code selects the cpu/memory record types; Fill does not invent interface values
+		q.OS = []int16{pack.OS_LINUX, pack.OS_WINDOW, pack.OS_OSX, pack.OS_HPUX, pack.OS_AIX}[r.Intn(5)]
+		mk := func() (pack.Cpu, pack.Memory) {
+			if q.OS == pack.OS_WINDOW {
+				return &pack.CpuWindow{}, &pack.MemoryWindow{}
+			}
+			return &pack.CpuLinux{}, &pack.MemoryLinux{}
+		}
+		q.Cpu, q.Memory = mk()
+		Fill(r, q.Cpu, 0)
+		Fill(r, q.Memory, 0)
+		q.CpuCore = nil
+		for i, n := 0, r.Intn(3); i < n; i++ {
+			c, _ := mk()
+			Fill(r, c, 0)
+			q.CpuCore = append(q.CpuCore, c)
+		}
 	case *pack.SMDownCheckPack:
 		var items []*pack.DownCheckRec
 		for i, n := 0, 1+r.Intn(3); i < n; i++ {
@@ -577,4 +608,182 @@ func Direct(r *rand.Rand, i int) interface{} {
 		q.SetMetaValues(ValueOf(r, value.INT_VALUE_MAP, 1).(*value.IntMapValue))
 	}
 	return p
+}
+
+// ---------------------------------------------------------------------------
+// Layout variants (added for C04): the encodings an object's writer produces when
+// ONE field takes the values that wire formats use to select a layout - every
+// value of a byte-wide field (version and flag bytes), both values of a bool,
+// 0/1/2/3/-1 of a wider integer, empty/non-empty of a string, slice, map or
+// nested value.  Mutate only constructs; which variants are worth decoding is
+// the caller's business (it sees the writer's output while the field is set).
+
+// Mutate sets, one at a time, every settable exported field reachable from *p to each
+// of its candidate values, calls visit(path, kind, value, n) while the field is set and puts the
+// old value back.  kind: "byte" | "bool" | "int" (candidates in the order 1, 0, 2, 3, -1) | "map" |
+// "value" | "text" (n = byte length of the text or blob replaced) | "slice".  Order: bytes and
+// bools of the whole object first, then integers, maps and values, then texts and slices.
+// visit returns false to stop.
+func Mutate(r *rand.Rand, p interface{}, visit func(path, kind, val string, n int) bool) {
+	stop := false
+	for pass := 0; pass < 3 && !stop; pass++ {
+		seen := map[uintptr]bool{}
+		var walk func(v reflect.Value, path string, depth int)
+		try := func(f, nv reflect.Value, path, kind, val string, n int) {
+			if stop {
+				return
+			}
+			old := reflect.New(f.Type()).Elem()
+			old.Set(f)
+			f.Set(nv)
+			if !visit(path, kind, val, n) {
+				stop = true
+			}
+			f.Set(old)
+		}
+		field := func(f reflect.Value, path string, depth int) {
+			if stop || !f.CanSet() {
+				return
+			}
+			switch f.Kind() {
+			case reflect.Uint8, reflect.Int8:
+				if pass != 0 {
+					return
+				}
+				for x := 0; x < 256 && !stop; x++ {
+					nv := reflect.New(f.Type()).Elem()
+					if f.Kind() == reflect.Uint8 {
+						nv.SetUint(uint64(x))
+					} else {
+						nv.SetInt(int64(int8(x)))
+					}
+					if nv.Interface() != f.Interface() {
+						try(f, nv, path, "byte", strconvI(x), 0)
+					}
+				}
+			case reflect.Bool:
+				if pass == 0 {
+					try(f, reflect.ValueOf(!f.Bool()).Convert(f.Type()), path, "bool", "toggled", 0)
+				}
+			case reflect.Int, reflect.Int16, reflect.Int32, reflect.Int64, reflect.Uint, reflect.Uint16, reflect.Uint32, reflect.Uint64:
+				if pass != 1 {
+					return
+				}
+				for _, x := range []int64{1, 0, 2, 3, -1} {
+					nv := reflect.New(f.Type()).Elem()
+					if f.Kind() >= reflect.Uint {
+						nv.SetUint(uint64(x) & (^uint64(0) >> (64 - uint(f.Type().Bits()))))
+					} else {
+						nv.SetInt(x)
+					}
+					try(f, nv, path, "int", strconvI(int(x)), 0)
+				}
+			case reflect.String:
+				if pass == 2 {
+					if f.Len() > 0 {
+						try(f, reflect.ValueOf("").Convert(f.Type()), path, "text", "empty", f.Len())
+					} else {
+						try(f, reflect.ValueOf("v").Convert(f.Type()), path, "text", "set", 0)
+					}
+				}
+			case reflect.Slice:
+				if pass == 2 {
+					kind := "slice"
+					if f.Type().Elem().Kind() == reflect.Uint8 {
+						kind = "text"
+					}
+					if f.Len() > 0 {
+						try(f, reflect.Zero(f.Type()), path, kind, "empty", f.Len())
+					} else {
+						s := reflect.MakeSlice(f.Type(), 1, 1)
+						fillValue(r, s.Index(0), 0)
+						try(f, s, path, kind, "set", 0)
+					}
+				}
+				if f.Len() > 0 && f.Type().Elem().Kind() != reflect.Uint8 {
+					walk(f.Index(0), path+"[0]", depth+1)
+				}
+			case reflect.Array:
+				if f.Len() > 0 {
+					walk(f.Index(0), path+"[0]", depth+1)
+				}
+			case reflect.Struct:
+				walk(f, path, depth+1)
+			case reflect.Ptr:
+				switch f.Type() {
+				case tMapValue, tIntMapValue, tStrKeyMap:
+					if pass != 1 {
+						return
+					}
+					if !f.IsNil() {
+						try(f, reflect.Zero(f.Type()), path, "map", "nil", 0)
+						nv := reflect.New(f.Type()).Elem()
+						switch f.Type() { // present but empty
+						case tMapValue:
+							nv.Set(reflect.ValueOf(value.NewMapValue()))
+						case tIntMapValue:
+							nv.Set(reflect.ValueOf(value.NewIntMapValue()))
+						default:
+							nv.Set(reflect.ValueOf(hmap.NewStringKeyLinkedMap()))
+						}
+						try(f, nv, path, "map", "empty", 0)
+					} else {
+						nv := reflect.New(f.Type()).Elem()
+						fillValue(r, nv, 1)
+						try(f, nv, path, "map", "set", 0)
+					}
+				default:
+					walk(f, path, depth+1)
+				}
+			case reflect.Interface:
+				if f.Type() == tValueIface {
+					if pass != 1 {
+						return
+					}
+					if !f.IsNil() {
+						try(f, reflect.Zero(f.Type()), path, "value", "nil", 0)
+					} else {
+						try(f, reflect.ValueOf(Value(r, 1)), path, "value", "set", 0)
+					}
+				} else if !f.IsNil() {
+					walk(f.Elem(), path, depth+1)
+				}
+			}
+		}
+		walk = func(v reflect.Value, path string, depth int) {
+			if stop || depth > 4 {
+				return
+			}
+			switch v.Kind() {
+			case reflect.Interface:
+				if !v.IsNil() {
+					walk(v.Elem(), path, depth)
+				}
+			case reflect.Ptr:
+				if v.IsNil() || seen[v.Pointer()] || v.Type().Elem().Kind() != reflect.Struct || v.Type().Elem().PkgPath() == "sync" {
+					return
+				}
+				seen[v.Pointer()] = true
+				walk(v.Elem(), path, depth)
+			case reflect.Struct:
+				for i := 0; i < v.NumField() && !stop; i++ {
+					if v.Type().Field(i).PkgPath != "" {
+						continue
+					}
+					field(v.Field(i), path+"."+v.Type().Field(i).Name, depth)
+				}
+			}
+		}
+		walk(reflect.ValueOf(p), "", 0)
+	}
+}
+
+func strconvI(x int) string {
+	if x < 0 {
+		return "-" + strconvI(-x)
+	}
+	if x < 10 {
+		return string(rune('0' + x))
+	}
+	return strconvI(x/10) + string(rune('0'+x%10))
 }
